@@ -3,6 +3,7 @@ Byte-level soundness of edges and of every path of edges (C04): the specificatio
 step function run over the emitted bytes.
 -/
 import SfntV.Proofs.T2EdgesAll
+import SfntV.Proofs.T2Loop
 
 set_option linter.unusedSimpArgs false
 set_option linter.unusedVariables false
@@ -14,18 +15,6 @@ open SfntV SfntV.T2 SfntV.Spec.T2
 def Decodes (a : EncNum) : Prop :=
   a.code ≠ [] ∧ ∀ (q : Quirks) (env : Env) (s : St) (rest : List Nat), s.stack.length ≤ 48 →
     step q env s (a.code ++ rest) = .ok (.cont { s with stack := s.stack ++ [a.val] } rest)
-
-/-- finitely many successful interpreter steps (each consuming code) lead from (s, c) to (s', c') -/
-inductive Reaches (q : Quirks) (env : Env) : St → List Nat → St → List Nat → Prop
-  | refl (s : St) (c : List Nat) : Reaches q env s c s c
-  | step {s s1 s2 : St} {c c1 c2 : List Nat} : step q env s c = .ok (.cont s1 c1) → c1.length < c.length →
-      Reaches q env s1 c1 s2 c2 → Reaches q env s c s2 c2
-
-theorem Reaches.trans {q : Quirks} {env : Env} {s1 s2 s3 : St} {c1 c2 c3 : List Nat}
-    (h1 : Reaches q env s1 c1 s2 c2) (h2 : Reaches q env s2 c2 s3 c3) : Reaches q env s1 c1 s3 c3 := by
-  induction h1 with
-  | refl s c => exact h2
-  | step hs hl _ ih => exact Reaches.step hs hl (ih h2)
 
 theorem reaches_push (q : Quirks) (env : Env) (args : List EncNum) (hd : ∀ a ∈ args, Decodes a)
     (s : St) (rest : List Nat) (hs : s.stack.length + args.length ≤ 49) :
@@ -138,16 +127,16 @@ inductive IsPath (segs : List Seg) : Nat → List Edge → Prop
       IsPath segs e.to rest → IsPath segs node (e :: rest)
 
 theorem path_reaches (env : Env) (segs : List Seg) (node : Nat) (path : List Edge)
-    (hp : IsPath segs node path) (hcore : ∀ e ∈ path, coreOp2 e.op = true)
+    (hp : IsPath segs node path)
     (hd : ∀ g ∈ segs, ∀ a ∈ g.args, Decodes a) (s : St) (hr : Ready s) (rest : List Nat) :
     Reaches strict env s (path.flatMap Edge.bytes ++ rest) (drawSegs strict s (segs.drop node)) rest := by
   induction hp generalizing s with
   | done => simpa [drawSegs] using Reaches.refl s rest
   | @step node e tl he _ ih =>
-    have hS := appendEdges_sound_core2 node (segs.drop node) e he (hcore e List.mem_cons_self)
+    have hS := appendEdges_sound node (segs.drop node) e he
     have hd' : ∀ g ∈ segs.drop node, ∀ a ∈ g.args, Decodes a := fun g hg => hd g (List.mem_of_mem_drop hg)
     have h1 := edge_reaches env node (segs.drop node) e hS hd' s hr (tl.flatMap Edge.bytes ++ rest)
-    have h2 := ih (fun e' he' => hcore e' (List.mem_cons_of_mem _ he'))
+    have h2 := ih
       (drawSegs strict s ((segs.drop node).take (e.to - node))) (ready_drawSegs strict s _ hr)
     have hsplit : segs.drop node = (segs.drop node).take (e.to - node) ++ segs.drop e.to := by
       have := (List.take_append_drop (e.to - node) (segs.drop node)).symm
